@@ -191,7 +191,35 @@ fn apply(w: &mut World, op: &Op) -> Option<String> {
         Op::NewSession => w.sessions.push(Some(Session::new())),
         Op::Clone(i) => {
             if let Some(Some(s)) = w.sessions.get(*i) {
-                let c = s.clone();
+                // `clone()`, or — by the contract of `Clone` the same thing — `clone_from` into a session that
+                // had a life of its own before (every setting at an odd value, a header, a root): nothing of
+                // that life survives in what is now a clone of `s`. The overwritten session is unshared, or
+                // shared with a clone of its own / a pending request (seed C16-seed11: a field-by-field copy
+                // into the unshared destination that leaves one field out).
+                let way = (w.sessions.len() + *i) % 4;
+                let c = if way == 0 {
+                    s.clone()
+                } else {
+                    let mut c = Session::new();
+                    for (f, v) in [("mh", 7u64), ("mr", 11), ("fr", 0), ("ct", 1234), ("rt", 4321), ("to", 777), ("ac", 1), ("ah", 1), ("co", 0), ("px", 3), ("cs", 2), ("rc", 0)] {
+                        set_session(&mut c, f, v);
+                    }
+                    c.header("X-Former-Life", "1");
+                    match way {
+                        1 => c.clone_from(s),
+                        2 => {
+                            let keep = c.clone();
+                            c.clone_from(s);
+                            drop(keep);
+                        }
+                        _ => {
+                            let pending = c.get("http://former.test/");
+                            c.clone_from(s);
+                            drop(pending);
+                        }
+                    }
+                    c
+                };
                 w.sessions.push(Some(c));
             }
         }
